@@ -422,10 +422,16 @@ func init() {
 
 		// ---------------------------------------------------------------- xslices
 		ex(xs, "Chunk", "xsChunkPanics", "if[0].cond", "Bool", I("size"), map[string]string{"chunkSize": "size"}),
-		ex(xs, "Chunk", "xsChunkCount", "call[make][0].arg[1]", "Int", I("len", "size"), map[string]string{"len(s)": "len", "chunkSize": "size"}),
+		// (shape after "fix: xslices.Chunk overflowed for a chunkSize near the maximum int": the count is
+		// 0 for an empty slice, else (len(s)-1)/chunkSize + 1; a chunk ends at len(s) unless a full chunk fits)
+		ex(xs, "Chunk", "xsChunkCount0", "assign[n][0].rhs", "Int", nil, nil),
+		ex(xs, "Chunk", "xsChunkNonEmpty", "if[1].cond", "Bool", I("len"), map[string]string{"len(s)": "len"}),
+		ex(xs, "Chunk", "xsChunkCount", "if[1].body/assign[n][0].rhs", "Int", I("len", "size"), map[string]string{"len(s)": "len", "chunkSize": "size"}),
+		ex(xs, "Chunk", "xsChunkMake", "call[make][0].arg[1]", "Int", I("n"), map[string]string{"n": "n"}),
 		ex(xs, "Chunk", "xsChunkStart", "assign[start][0].rhs", "Int", I("i", "size"), map[string]string{"i": "i", "chunkSize": "size"}),
-		ex(xs, "Chunk", "xsChunkEnd", "assign[end][0].rhs", "Int", I("i", "size"), map[string]string{"i": "i", "chunkSize": "size"}),
-		ex(xs, "Chunk", "xsChunkClamp", "range[0].body/if[0].cond", "Bool", I("e", "len"), map[string]string{"end": "e", "len(s)": "len"}),
+		ex(xs, "Chunk", "xsChunkEndLast", "assign[end][0].rhs", "Int", I("len"), map[string]string{"len(s)": "len"}),
+		ex(xs, "Chunk", "xsChunkFull", "range[0].body/if[0].cond", "Bool", I("len", "start", "size"), map[string]string{"len(s)": "len", "start": "start", "chunkSize": "size"}),
+		ex(xs, "Chunk", "xsChunkEnd", "range[0].body/if[0].body/assign[end][0].rhs", "Int", I("start", "size"), map[string]string{"start": "start", "chunkSize": "size"}),
 		ex(xs, "Runs", "xsRunsStart0", "assign[start][0].rhs", "Int", nil, nil),
 		ex(xs, "Runs", "xsRunsEnd0", "assign[end][0].rhs", "Int", nil, nil),
 		ex(xs, "Runs", "xsRunsNonEmpty", "if[0].cond", "Bool", I("len"), map[string]string{"len(s)": "len"}),
